@@ -151,6 +151,9 @@ def threshold_ldpc(rng, count, apis=("recv", "setavail"), finish=True, cbs=(None
         if mid:     # residual systems of 32, 64 ... unknowns (machine-word boundaries of the dense solver) need n-k >= 32
             k = rng.randint(20, 70)
             r = rng.randint(32, 72)
+            if rng.random() < 0.3:      # k and n-k themselves at the word sizes
+                k = rng.choice([31, 32, 33, 63, 64, 65])
+                r = rng.choice([32, 33, 63, 64, 65])
         n1 = rng.randint(3, min(r, 5))
         seed = rng.choice([1, 1, 2, 3, rng.randint(1, 2 ** 31 - 2)])
         p = P(3, k, r, N1=n1, seed=seed, payload="rnd" if mid and rng.random() < 0.5 else "id",
